@@ -7,7 +7,7 @@ from .. import genparser
 from ..cfg import CFG
 from ..engine import AnalysisError, MechanismMissing, PropertySpec, norm
 from ..grammar import contexts as g_contexts, ctx_name, parse_grammar
-from ..pyutil import call_name, calls, dotted, is_name, walk_local
+from ..pyutil import call_name, calls, const_str, dotted, is_name, walk_local
 from ._listener import listener_symmetry
 
 PARSER = "src/pymoca/parser.py"
@@ -620,6 +620,109 @@ def r04_10(ctx, rep):
         raise MechanismMissing(R, "fewer than 3 loops found in exitComposition")
 
 
+def gettext_split_rule(ctx, rep, R):
+    """ANTLR's getText() concatenates the tokens of a context without separators (hidden-channel whitespace is not part of
+    it).  Splitting it on whitespace states the opposite belief and silently yields ONE fused word for several tokens."""
+    cls = ctx.cls(PARSER, L, R)
+    n_get = 0
+    for m in cls.body:
+        if not isinstance(m, ast.FunctionDef):
+            continue
+        for c in calls(m):
+            if isinstance(c.func, ast.Attribute) and c.func.attr == "getText":
+                n_get += 1
+            if isinstance(c.func, ast.Attribute) and c.func.attr in ("split", "rsplit") and isinstance(c.func.value, ast.Call) \
+                    and isinstance(c.func.value.func, ast.Attribute) and c.func.value.func.attr == "getText":
+                sep = const_str(c.args[0]) if c.args else None
+                if not c.args or (sep is not None and sep.strip() == ""):
+                    rep.ob(R, "%s:%s.%s" % (PARSER, L, m.name), "whitespace split of `%s`" % norm(c.func.value)[:60], False,
+                           "getText() of a parser rule context has no blanks between its tokens: `discrete input Real u` yields the single "
+                           "prefix 'discreteinput', which no later stage recognises — iterate over the context's children instead")
+    rep.ob(R, PARSER + ":" + L, "getText() uses inspected", n_get >= 10, "expected the listener to read token text with getText() (found %d uses)" % n_get)
+    # the keyword lists that are built from a multi-token context take one entry per child
+    for hname in ("enterComponent_clause", "enterComponent_clause1"):
+        fn = ctx.func(PARSER, "%s.%s" % (L, hname), R)
+        kw = [k for c in calls(fn) for k in c.keywords if k.arg == "prefixes"]
+        ok = False
+        for k in kw:
+            v = k.value
+            if isinstance(v, ast.Name):
+                name = v.id
+                for st in walk_local(fn):
+                    if isinstance(st, ast.Assign) and is_name(st.targets[0], name):
+                        v = st.value
+            ok = ok or (isinstance(v, (ast.ListComp, ast.Call)) and any(isinstance(x, ast.Attribute) and x.attr in ("getChildren", "children") for x in ast.walk(v))
+                        and any(isinstance(x, ast.Attribute) and x.attr == "type_prefix" for x in ast.walk(v)))
+        rep.ob(R, "%s:%s.%s" % (PARSER, L, hname), "one prefix per token of type_prefix", ok,
+               "the prefixes of a component clause must be the texts of the children of ctx.type_prefix(), one entry per keyword")
+
+
+@SPEC.rule(
+    "R04.11",
+    "token text is never split on whitespace: ASTListener does not call .getText().split() / .split(' ') (getText() "
+    "concatenates tokens without separators); the prefix list of a component clause is built from the children of "
+    "type_prefix, one entry per keyword",
+)
+def r04_11(ctx, rep):
+    gettext_split_rule(ctx, rep, "R04.11")
+
+
+def _rule_refs(alts):
+    out = set()
+    for a in alts:
+        for e in a.elems:
+            if e.kind == "rule":
+                out.add(e.value)
+            if e.kind in ("group", "not"):
+                out |= _rule_refs(e.alts)
+    return out
+
+
+@SPEC.rule(
+    "R04.12",
+    "flat enumeration only of flat rules: wherever a handler enumerates the raw child list of a sub-context "
+    "(`x.children`, `x.getChildren()` with a stride or a loop) the grammar rule of that sub-context must not refer to "
+    "itself — the children of a recursive rule are nested contexts, not the flat item list (import_list : IDENT (',' "
+    "import_list)* puts the 3rd name inside a child context)",
+)
+def r04_12(ctx, rep):
+    R = "R04.12"
+    gp, rules, gctx, ms, generic = _facts(ctx, R)
+    n = 0
+    for name, fn in sorted(ms.items()):
+        cparam = fn.args.args[1].arg if len(fn.args.args) > 1 else "ctx"
+        # locals bound to ctx.<rule>()
+        bound = {}
+        for st in walk_local(fn):
+            if isinstance(st, ast.Assign) and isinstance(st.targets[0], ast.Name) and isinstance(st.value, ast.Call) \
+                    and isinstance(st.value.func, ast.Attribute) and is_name(st.value.func.value, cparam) and st.value.func.attr in rules and not st.value.args:
+                bound[st.targets[0].id] = st.value.func.attr
+        for node in walk_local(fn):
+            base = None
+            if isinstance(node, ast.Attribute) and node.attr == "children":
+                base = node.value
+            elif isinstance(node, ast.Call) and isinstance(node.func, ast.Attribute) and node.func.attr in ("getChildren", "getChild"):
+                base = node.func.value
+            if base is None:
+                continue
+            rule = None
+            if isinstance(base, ast.Name) and base.id in bound:
+                rule = bound[base.id]
+            elif isinstance(base, ast.Call) and isinstance(base.func, ast.Attribute) and is_name(base.func.value, cparam) and base.func.attr in rules:
+                rule = base.func.attr
+            elif is_name(base, cparam):
+                hc = _handler_ctx(name)
+                rule = next((r for r in rules if ctx_name(r) == hc), None)
+            if rule is None or rule not in rules:
+                continue
+            n += 1
+            recursive = rule in _rule_refs(rules[rule].alts)
+            rep.ob(R, "%s:%s.%s" % (PARSER, L, name), "raw children of %s" % rule, not recursive,
+                   "grammar rule `%s` refers to itself, so `%s` yields nested %s contexts, not the flat list of its items: with three or "
+                   "more items everything after the second is attached as one garbled entry" % (rule, norm(node)[:50], rule))
+    rep.ob(R, PARSER + ":" + L, "child enumerations inspected", n >= 2, "expected at least the visibility walk and the type_prefix enumeration (found %d)" % n)
+
+
 # -- seeded variants ---------------------------------------------------------
 from ._mut import delete_stmt_where, replace_in_func  # noqa: E402
 
@@ -734,3 +837,34 @@ def _m_break(mod):
         return False
 
     return mod if replace_in_func(mod, "ASTListener.exitComposition", edit) else None
+
+
+@SPEC.mutant("prefixes from getText().split(' ')", PARSER, "R04.11", "whitespace split")
+def _m_split(mod):
+    def edit(fn):
+        for st in ast.walk(fn):
+            if isinstance(st, ast.Assign) and isinstance(st.value, ast.ListComp) and "type_prefix" in norm(st.value):
+                st.value = ast.parse("ctx.type_prefix().getText().split(' ')", mode="eval").body
+                return True
+        return False
+
+    return mod if replace_in_func(mod, "ASTListener.enterComponent_clause", edit) else None
+
+
+@SPEC.mutant("import names from the raw child list", PARSER, "R04.12", "import_list")
+def _m_implist(mod):
+    def edit(fn):
+        for n in ast.walk(fn):
+            if isinstance(n, ast.While):
+                p_ = n._parent if hasattr(n, "_parent") else None
+        for node in ast.walk(fn):
+            for fld in ("body", "orelse"):
+                b = getattr(node, fld, None)
+                if isinstance(b, list):
+                    for i, st in enumerate(b):
+                        if isinstance(st, ast.While):
+                            b[i] = ast.parse("for ident in import_list.children[::2]:\n    import_clause.components.append(package_name.concatenate(package_name.from_string(ident.getText())))").body[0]
+                            return True
+        return False
+
+    return mod if replace_in_func(mod, "ASTListener.exitImport_clause", edit) else None
